@@ -1,11 +1,13 @@
 SPECIFICATION Spec
 CONSTANTS
-  MaxS = 3
-  EDepth = 2
-  SDepth = 1
-  Shapes = {"", "H", "L", "C", "HC", "LC"}
+  MaxS = 1
+  EDepth = 0
+  SDepth = 0
+  Shapes = {""}
   Mod = 1
-  NCalls = 0
+  NCalls = 36
+  NProg = 1
+  Sample = FALSE
   Wide = TRUE
   Dump = TRUE
 INVARIANT NoDangling
